@@ -358,6 +358,30 @@ func heurEvaluateFullCase(o *Out, r *Rng, c int) {
 			i++
 		}
 	}
+	if r.chance(0.12) && mp["function"] != "thresholds" {
+		// out-of-range parameters are rejected whatever the size of the considered set (0, 1, 2 … alternatives)
+		par, _ := mp["params"].(J)
+		if par == nil {
+			par = J{}
+		}
+		switch r.Intn(4) {
+		case 0:
+			par["coefficient"] = []float64{0, 1.5, -0.25, 1}[r.Intn(4)]
+		case 1:
+			par["minValue"] = []float64{-0.3, 1.25}[r.Intn(2)]
+		case 2:
+			par["maxValue"] = []float64{2, -0.5}[r.Intn(2)]
+		default:
+			par["minValue"], par["maxValue"] = 0.75, 0.25
+		}
+		mp["params"] = par
+		k := r.Intn(3)
+		if k < len(q.Problem.Chosen) {
+			q.Problem.Chosen = q.Problem.Chosen[:k]
+			q.Body["choseToMake"] = append([]string{}, q.Problem.Chosen...)
+		}
+		delete(mp, "currentChoice")
+	}
 	if r.chance(0.05) { // ask each heuristic for the other family's series: must be unknown to it
 		if method == "aspectEliminationHeuristic" {
 			mp["function"] = "idealSubtractiveCoefficient"
